@@ -467,6 +467,44 @@ def lite_ndef_tamper(sx, lite_s):
     return [lite_s, ndef is None]
 
 
+def lites_write(sx, block, tamper_wcnt):
+    """Lite-S: after mutual authentication write_with_mac(data, block); the
+    tag model verifies MAC_A and the write counter on its own.  With
+    tamper_wcnt the write counter read by the reader is replaced in transit."""
+    p = sx.bytes("p", 16)
+    sim, tag = lite_tag(sx, 1, ck_block(p), {block: list(sx.bytes("tag.old", 16))})
+    if not sx.truth(sx.eq(tag.authenticate(p), True)):
+        sx.check(False, "lites:authenticate-false-with-tag-key")
+    wcnt0 = sim.wcnt
+    data = sx.bytes("data", 16, mutable=bool(sx.pick("data.mutable", [0, 1])))
+    state = {}
+    if tamper_wcnt:
+        def tamper(sim, cmd, rsp):
+            if 'seen' in state or cmd[1] != 0x06:
+                return rsp
+            state['seen'] = sx.mkbytes(list(rsp[0:13]) + list(sx.bytes("air.wcnt", 3)) +
+                                       list(rsp[16:]))
+            return state['seen']
+        sim.tamper = tamper
+    nrefused = sim.log.count(("mac_a_refused", [block]))
+    try:
+        tag.write_with_mac(data, block)
+    except Type3TagCommandError:
+        sx.check(sim.log.count(("mac_a_refused", [block])) == nrefused + 1,
+                 "lites:write_with_mac-TagCommandError-without-tag-error")
+        sx.check(tamper_wcnt, "lites:write_with_mac-refused-by-tag")
+        sx.check(sx.eq(sim.wcnt, wcnt0), "lites:write-counter-moved-on-refused-write")
+        sx.reach("lites:write-refused")
+        return "TagCommandError"
+    sx.check(sim.log.count(("mac_a_refused", [block])) == nrefused,
+             "lites:write_with_mac-silent-although-tag-refused")
+    sx.check(same(sx, sx.mkbytes(sim.blk[block]), data),
+             "lites:write_with_mac-stored-other-data")
+    sx.check(sx.eq(sim.wcnt, wcnt0 + 1), "lites:write-counter-not-incremented")
+    sx.reach("lites:written")
+    return "written"
+
+
 def lite_protect(sx, lite_s, plen, qlen, protect_from, pwtype):
     """protect(p) on a factory tag, then authenticate(q)"""
     pfx = "lites" if lite_s else "lite"
@@ -566,6 +604,11 @@ def partitions(tier):
         parts.append(dict(name="lite-auth-tamper:%d:%d" % (lite_s, which),
                           fn="lite_auth_tamper",
                           params=dict(lite_s=lite_s, which=which)))
+    for block in ([5] if quick else [0, 5, 13, 14]):
+        for t in (0, 1):
+            parts.append(dict(name="lites-write:%d:%d" % (block, t),
+                              fn="lites_write",
+                              params=dict(block=block, tamper_wcnt=t)))
     for lite_s in (0, 1):
         parts.append(dict(name="lite-ndef-tamper:%d" % lite_s,
                           fn="lite_ndef_tamper", params=dict(lite_s=lite_s)))
@@ -601,6 +644,7 @@ MUST_REACH = [
     "lite:protected", "lite:second-accepted", "lite:second-refused",
     "lite:protect-short-password-rejected",
     "lites:protected", "lites:second-accepted", "lites:second-refused",
+    "lites:written", "lites:write-refused",
 ]
 BOUNDS = {
     "quick": "NTAG210/212/213/215/216 and Ultralight EV1 MF0UL11/H11/21/H21: "
@@ -616,14 +660,17 @@ BOUNDS = {
     "with all block contents, the response untouched / data+MAC blocks "
     "replaced by arbitrary bytes / one header byte replaced / one byte short "
     "or long; the payload of the 2nd (Lite, Lite-S), 3rd and 5th (Lite-S) "
-    "response inside authenticate() replaced by arbitrary bytes; tag.ndef "
+    "response inside authenticate() replaced by arbitrary bytes; Lite-S "
+    "write_with_mac of arbitrary data to block 5 (all write counters) with the "
+    "tag model verifying MAC_A/WCNT, untouched and with the write counter "
+    "read replaced in transit; tag.ndef "
     "after authentication with the MAC replaced; protect(p) then "
     "authenticate(q) for password lengths 0,7,16,18 (Lite-S also str passwords)",
     "thorough": "as quick with password lengths {0,1,5,6,7,16} (NTAG) / "
     "{0,1,15,16,17,32} (FeliCa), protect_from in {0,3,4,255,300} x "
     "read_protect, PACK tampering on every product, read_with_mac block sets "
     "{13},{REG,0},{2,2} and Lite-S {0,1},{1,2,3},{ID,STATE} in all five "
-    "tamper modes, more protect combinations",
+    "tamper modes, write_with_mac to blocks 0,5,13,REG, more protect combinations",
 }
 OUTSIDE = [
     "the DES / triple-DES computation itself (pyDes): replaced by an "
